@@ -157,9 +157,11 @@ def known_lines(rep, pid):
             print('note: listed finding no longer reproduces: %s' % e['what'])
 
 
-def run(pid, tier, seed, explanation, functions, bounds, assumptions, level='other'):
+def run(pid, tier, seed, explanation, functions, bounds, assumptions, level='other', custom=None):
     rep = Report(pid, tier, seed, level)
     runner.workdir(pid)
+    if custom:
+        return custom(rep)
     shapes = select(pid, tier, seed)
     validate(rep, shapes, seed, 40 if tier == 'quick' else 240)
     qs = []
